@@ -14,6 +14,7 @@ From HV Require Import Model.SexpDefs Gen.GenRefine Spec.SmtQuerySpec Model.SmtT
   Model.CexDefs Gen.GenCexHandler Model.CexModel Proofs.CexProofs
   Model.PathQueryDefs Gen.GenPathQuery Model.PathQueryModel Proofs.PathQueryProofs.
 From HV Require Spec.VerdictSpec Gen.GenSolveDispatch.
+From HV Require Spec.CexPrintSpec Model.CexPrintDefs Gen.GenCexPrint Gen.GenHexify Model.CexPrintModel Proofs.CexPrintProofs.
 Import ListNotations.
 Open Scope Z_scope.
 
@@ -273,4 +274,67 @@ Example C04_nonvacuous :
   solve_e2e false false ("sat" ++ nl ++ "(define-fun f_evm_bvmul_256 ...)") true ("sat" ++ nl ++ "(define-fun p_x_uint256_00 () (_ BitVec 256) #x2a)")
     = (OSat true ("sat" ++ nl ++ "(define-fun p_x_uint256_00 () (_ BitVec 256) #x2a)"), 2) /\
   classify (fst (solve_e2e false false ("sat" ++ nl ++ "f_evm_exp_256") true ("sat" ++ nl ++ "f_evm_exp_256"))) = InvalidCex.
+Proof. vm_compute. repeat split; reflexivity. Qed.
+
+(* ------------------------------------------------------------------ what is PRINTED
+   The user replays the text after "Counterexample:".  Gen/GenCexPrint.v (the fields of
+   ModelVariable, the f-string of PotentialModel.__str__, sorted / not, the sign of the empty
+   model) and Gen/GenHexify.v (the int arm of utils.hexify) are regenerated from solve.py /
+   utils.py on every run; CexPrintModel.render_model interprets them; CexPrintSpec.read_cex is
+   the reader's side (name up to the first space, " = 0x", hexadecimal digits), written from
+   the output format alone.
+
+   For EVERY model - any number of variables, any names a solver prints on one line, any
+   declared type / SMT sort / width fields, any natural value however wide - the printed text
+   reads back as exactly the assignment the solver returned (as a set: a dict has no order and
+   the lines are sorted).  In particular no bit of a value is dropped, whatever the declared
+   type says. *)
+Theorem C04_printed_cex_round_trip :
+  forall m : list CexPrintDefs.mvar,
+    Forall (fun v => CexPrintSpec.all_plain (CexPrintDefs.full_name v) = true /\
+                     CexPrintDefs.full_name v <> EmptyString /\ 0 <= CexPrintDefs.value v) m ->
+    exists l, CexPrintSpec.read_cex (CexPrintModel.render_model m) = Some l /\
+              Permutation.Permutation l (map (fun v => (CexPrintDefs.full_name v, CexPrintDefs.value v)) m).
+Proof. exact CexPrintProofs.printed_cex_round_trip. Qed.
+Print Assumptions C04_printed_cex_round_trip.
+
+(* the rendering is injective: two models printed as the same text are the same assignment *)
+Theorem C04_printed_cex_injective :
+  forall m1 m2 : list CexPrintDefs.mvar,
+    Forall (fun v => CexPrintSpec.all_plain (CexPrintDefs.full_name v) = true /\
+                     CexPrintDefs.full_name v <> EmptyString /\ 0 <= CexPrintDefs.value v) m1 ->
+    Forall (fun v => CexPrintSpec.all_plain (CexPrintDefs.full_name v) = true /\
+                     CexPrintDefs.full_name v <> EmptyString /\ 0 <= CexPrintDefs.value v) m2 ->
+    CexPrintModel.render_model m1 = CexPrintModel.render_model m2 ->
+    Permutation.Permutation (map (fun v => (CexPrintDefs.full_name v, CexPrintDefs.value v)) m1)
+                            (map (fun v => (CexPrintDefs.full_name v, CexPrintDefs.value v)) m2).
+Proof. exact CexPrintProofs.printed_cex_injective. Qed.
+Print Assumptions C04_printed_cex_injective.
+
+(* a single variable: the line shows its full name and its whole value; the variable name,
+   the declared solidity type, the SMT sort and the width do not enter the text *)
+Theorem C04_printed_value_whole :
+  forall fn vn st sm sz n,
+    CexPrintSpec.all_plain fn = true -> fn <> EmptyString -> 0 <= n ->
+    CexPrintSpec.read_cex (CexPrintModel.render_model [CexPrintDefs.MVar fn vn st sm sz n]) = Some [(fn, n)].
+Proof.
+  intros fn vn st sm sz n H1 H2 H3.
+  exact (CexPrintProofs.printed_value_whole (CexPrintDefs.MVar fn vn st sm sz n) (conj H1 (conj H2 H3))).
+Qed.
+Print Assumptions C04_printed_value_whole.
+
+(* a uint8 calldata word holding 0x1234 and an address word with dirty upper bits are printed
+   in full (and in sorted order); the empty model is the empty-set sign; a text that is not a
+   counterexample reads as nothing *)
+Example C04_printed_nonvacuous :
+  let x := CexPrintDefs.MVar "p_x_uint8_00" "x" "uint8" "BitVec" 256 4660 in
+  let a := CexPrintDefs.MVar "p_a_address_01" "a" "address" "BitVec" 256 (171 * 2 ^ 160 + 5) in
+  CexPrintSpec.read_cex (CexPrintModel.render_model [x; a]) =
+    Some [("p_a_address_01"%string, 171 * 2 ^ 160 + 5); ("p_x_uint8_00"%string, 4660)] /\
+  CexPrintSpec.read_cex (CexPrintModel.render_line x) = Some [("p_x_uint8_00"%string, 4660)] /\
+  CexPrintSpec.read_cex (String CexPrintSpec.nl "    p_x_uint8_00 = 0x1234") = Some [("p_x_uint8_00"%string, 4660)] /\
+  CexPrintSpec.read_cex (String CexPrintSpec.nl "    p_x_uint8_00 = 0x00" ++ String CexPrintSpec.nl "    p_y_uint8_01 = 0x0a") =
+    Some [("p_x_uint8_00"%string, 0); ("p_y_uint8_01"%string, 10)] /\
+  CexPrintSpec.read_cex (CexPrintModel.render_model []) = Some [] /\
+  CexPrintSpec.read_cex "p_x_uint8_00 = 0x34" = None.
 Proof. vm_compute. repeat split; reflexivity. Qed.
